@@ -2,13 +2,32 @@
 //! model (the compiled driver) on the same inputs and reports where they differ, and
 //! where the implementation's own answers break a law of the property.
 
-mod model;
-mod report;
-mod rng;
-mod sexp;
+pub mod model;
+pub mod report;
+pub mod rng;
+pub mod sexp;
+pub mod util;
 
+mod c01;
+mod c02;
+mod c03;
+mod c04;
+mod c05;
+mod c06;
+mod c07;
+mod c08;
+mod c09;
+mod c10;
+mod c11;
+mod c12;
+mod c13;
+mod c14;
+mod c15;
 mod c16;
 mod c17;
+mod c18;
+mod c19;
+mod c20;
 
 pub struct Cfg {
   pub property: String,
@@ -25,6 +44,13 @@ fn main() {
   if args.len() < 2 {
     eprintln!("usage: vharness <property> [--tier quick|thorough] [--seed N] --driver PATH --report PATH [--replay FILE]");
     std::process::exit(2);
+  }
+  if args[1] == "child" {
+    // a case that may abort the process runs here, in a child of the harness
+    std::panic::set_hook(Box::new(|_| {}));
+    let rest: Vec<String> = args[2..].to_vec();
+    let code = child_main(&rest);
+    std::process::exit(code);
   }
   let mut cfg = Cfg {
     property: args[1].clone(),
@@ -67,8 +93,26 @@ fn main() {
   // panics inside the implementation are observations, not crashes of the harness
   std::panic::set_hook(Box::new(|_| {}));
   let rep = match cfg.property.as_str() {
+    "C01" => c01::run(&cfg),
+    "C02" => c02::run(&cfg),
+    "C03" => c03::run(&cfg),
+    "C04" => c04::run(&cfg),
+    "C05" => c05::run(&cfg),
+    "C06" => c06::run(&cfg),
+    "C07" => c07::run(&cfg),
+    "C08" => c08::run(&cfg),
+    "C09" => c09::run(&cfg),
+    "C10" => c10::run(&cfg),
+    "C11" => c11::run(&cfg),
+    "C12" => c12::run(&cfg),
+    "C13" => c13::run(&cfg),
+    "C14" => c14::run(&cfg),
+    "C15" => c15::run(&cfg),
     "C16" => c16::run(&cfg),
     "C17" => c17::run(&cfg),
+    "C18" => c18::run(&cfg),
+    "C19" => c19::run(&cfg),
+    "C20" => c20::run(&cfg),
     p => {
       eprintln!("unknown property {}", p);
       std::process::exit(2);
@@ -79,5 +123,18 @@ fn main() {
     println!("{}", text);
   } else {
     std::fs::write(&cfg.report, text).expect("write report");
+  }
+}
+
+/// `vharness child <family> <args…>`: reads its case from stdin, prints the observation.
+fn child_main(args: &[String]) -> i32 {
+  let mut input = String::new();
+  use std::io::Read;
+  let _ = std::io::stdin().read_to_string(&mut input);
+  match args.first().map(|s| s.as_str()) {
+    _ => {
+      eprintln!("unknown child family");
+      2
+    }
   }
 }
